@@ -249,7 +249,7 @@ def run(run):
                             {"same_input", "graph_view", "out_view", "deepcopy", "recurrent_copy", "rename_copy"},
                             ALL_KINDS, 1, max_build=3))
         jobs.append(prepare(run, "dict2", [0, 1], ["a", "b"], {"empty", "graph", "out"},
-                            {"same_input", "graph_view", "out_view"},
+                            {"same_input", "out_view"},
                             {"add_edge", "add_edge_list", "delete_vertex", "rename_inplace"}, 2, max_build=1))
     jobs.append(prepare(run, "free", ["", "a", "A", "b", "B"], ["a", "A", "b", "B"], {"free"},
                         {"same_input"} if quick else {"same_input", "out_view", "graph_view"}, light, 1))
